@@ -30,14 +30,33 @@ class _NoneValue:
 BAD: Dict[str, Any] = {"str": "12", "float": 1.5, "bytes": b"\x01", "none": _NoneValue(), "list": [1], "dict": {"x": 1}}
 
 
-def run_model(tier: str, variant: str = "") -> Tuple[tlc.TlcResult, List[Dict[str, Any]]]:
-    res = tlc.run("MC_Codec.tla", f"MC_Codec_{variant}{tier}.cfg", timeout=6000, heap="12g")
-    if not res.ok or res.distinct == 0:
-        raise tlc.MachineryError(f"TLC failed on Codec: {res.violated} {res.errors[:3]}\n{res.stdout[-3000:]}")
-    recs = list(res.json_lines())
-    if 2 * len(recs) + 1 != res.distinct:
-        raise tlc.MachineryError(f"{len(recs)} description records for {res.distinct} states")
-    return res, recs
+class _Merged:
+    """counts of several TLC runs over disjoint families"""
+
+    def __init__(self) -> None:
+        self.distinct = self.generated = 0
+        self.wall_s = 0.0
+        self.ok = True
+
+
+def run_model(tier: str, variant: str = "") -> Tuple[Any, List[Dict[str, Any]]]:
+    cfgs = [f"MC_Codec_{variant}{tier}.cfg"]
+    if tier == "thorough" and not variant:
+        cfgs.append("MC_Codec_thorough3.cfg")       # compositions of three shapes: a run of their own (memory)
+    merged = _Merged()
+    recs: List[Dict[str, Any]] = []
+    for cfg in cfgs:
+        res = tlc.run("MC_Codec.tla", cfg, timeout=6000, heap="12g")
+        if not res.ok or res.distinct == 0:
+            raise tlc.MachineryError(f"TLC failed on Codec ({cfg}): {res.violated} {res.errors[:3]}\n{res.stdout[-3000:]}")
+        part = list(res.json_lines())
+        if 2 * len(part) + 1 != res.distinct:
+            raise tlc.MachineryError(f"{len(part)} description records for {res.distinct} states ({cfg})")
+        recs += part
+        merged.distinct += res.distinct
+        merged.generated += res.generated
+        merged.wall_s += res.wall_s
+    return merged, recs
 
 
 # ---------------------------------------------------------------------------------------
